@@ -770,3 +770,133 @@ contract(
          'NO_VALUE as the flags say), the *args values, the extra **kwargs names; with the default '
          'flags exactly the argument store; the Buildable is not modified (frame)',
 )
+
+
+# --- Buildable.__delitem__ (index keys; slice keys are decided by the bounded layer) ----------------
+def NoTaggedStored(h, Av):
+  k = z3.Const('nt_k', Val)
+  A = ref(Av)
+  return FA([k], z3.Implies(h.has(A, k), z3.Not(isref(h, h.dget(A, k), 'TaggedValueCls'))),
+            patterns=[h.dget(A, k)])
+
+
+def _di_terms(c):
+  h0 = c.old
+  sv = c['self']
+  g = bsig(h0, sv)
+  A = ref(bfields(h0, sv)[1])
+  has0, val0 = h0.hasarr(A), h0.valarr(A)
+  L = Lfull(g, has0)
+  k1 = z3.If(c['key'] == VARARGS, vps_val(g), c['key'])
+  d = z3.If(ival(k1) < 0, ival(k1) + L, ival(k1))
+  vpe = z3.If(sig_vps(g) >= 0, sig_vps(g), L)        # start of the variadic part (= L if none)
+  return h0, sv, g, A, has0, val0, L, d, vpe
+
+
+def _di_req(c):
+  h0, sv, g, A, has0, val0, L, d, vpe = _di_terms(c)
+  return z3.And(BInv(h0, sv), NoTaggedStored(h0, bfields(h0, sv)[1]),
+                z3.Or(is_VInt(c['key']), z3.And(c['key'] == VARARGS, sig_vps(g) >= 0)))
+
+
+def _di_oob(c):
+  h0, sv, g, A, has0, val0, L, d, vpe = _di_terms(c)
+  return z3.Not(z3.And(0 <= d, d < L))
+
+
+def di_final_has(g, has0, L, d, vpe, key):
+  """Membership after `del cfg[d]` (0 <= d < L)."""
+  p = ival(key)
+  var_case = d >= vpe
+  return z3.If(var_case,
+               z3.If(z3.And(is_VInt(key), p >= vpe), p < L - 1, has0[key]),
+               z3.And(has0[key], key != poskey(g, d)))
+
+
+def di_final_val(g, val0, d, vpe, key):
+  p = ival(key)
+  return z3.If(z3.And(d >= vpe, is_VInt(key), p >= d), val0[IK(p + 1)], val0[key])
+
+
+def _di_store(c, h, done_upto):
+  """Store of self in heap h: variadic positions below done_upto are final, the rest is as after
+  the first loop (prefix deletion applied, variadic part still original)."""
+  h0, sv, g, A, has0, val0, L, d, vpe = _di_terms(c)
+  k = z3.Const('di_k', Val)
+  p = ival(k)
+  done = z3.And(is_VInt(k), p >= vpe, p < done_upto)
+  mid_has = z3.If(d >= vpe, has0[k], z3.And(has0[k], k != poskey(g, d)))
+  return z3.And(
+      FA([k], h.has(A, k) == z3.If(done, di_final_has(g, has0, L, d, vpe, k), mid_has),
+         patterns=[h.has(A, k)]),
+      FA([k], z3.Implies(h.has(A, k),
+                         h.dget(A, k) == z3.If(done, di_final_val(g, val0, d, vpe, k), val0[k])),
+         patterns=[h.dget(A, k)]))
+
+
+def _di_inv(c):
+  h0, sv, g, A, has0, val0, L, d, vpe = _di_terms(c)
+  h = c.heap
+  kk = c.k
+  op, np_ = c.v('old_placeholders'), c.v('new_placeholders')
+  i = z3.Int('di_i')
+  nlen = z3.If(d >= vpe, L - 1, L)
+  ph = lambda lst, x: ref(h.elt(ref(lst), x))
+  return z3.And(
+      0 <= kk, vpe + kk <= L, 0 <= d, d < L,
+      c.v('self') == sv, c.v('var_positional_start') == VInt(vpe),
+      BFields(h, sv), internals_same(h, h0, sv), NoTaggedStored(h, bfields(h0, sv)[1]),
+      tags_same(h, h0, sv),
+      # the history lists are not the local placeholder lists (no aliasing through the havoc)
+      FA([z3.Const('di_hk', Val)], z3.Implies(
+          h.has(ref(bfields(h0, sv)[2]), z3.Const('di_hk', Val)),
+          z3.And(ref(h.dget(ref(bfields(h0, sv)[2]), z3.Const('di_hk', Val))) != ref(op),
+                 ref(h.dget(ref(bfields(h0, sv)[2]), z3.Const('di_hk', Val))) != ref(np_))),
+         patterns=[h.dget(ref(bfields(h0, sv)[2]), z3.Const('di_hk', Val))]),
+      # the two placeholder lists (not modified by the loop)
+      isref(h, op, 'list'), isref(h, np_, 'list'), ref(op) != ref(np_),
+      ref(op) >= h0.alloc, ref(np_) >= h0.alloc,
+      h.len(ref(op)) == L, h.len(ref(np_)) == nlen,
+      FA([i], z3.Implies(z3.And(0 <= i, i < L), z3.And(
+          is_VRef(h.elt(ref(op), i)), cls_is(h.cls(ph(op, i)), '_Placeholder'),
+          h.fld(ph(op, i), 'index') == VInt(i))), patterns=[h.elt(ref(op), i)]),
+      FA([i], z3.Implies(z3.And(0 <= i, i < nlen), z3.And(
+          is_VRef(h.elt(ref(np_), i)), cls_is(h.cls(ph(np_, i)), '_Placeholder'),
+          h.fld(ph(np_, i), 'index') == VInt(z3.If(z3.And(d >= vpe, i >= d), i + 1, i)))),
+         patterns=[h.elt(ref(np_), i)]),
+      _di_store(c, h, vpe + kk))
+
+
+def _di_post(c):
+  h0, sv, g, A, has0, val0, L, d, vpe = _di_terms(c)
+  h = c.heap
+  k = z3.Const('di_k', Val)
+  return z3.And(
+      BInv(h, sv), internals_same(h, h0, sv), tags_same(h, h0, sv),
+      FA([k], h.has(A, k) == di_final_has(g, has0, L, d, vpe, k), patterns=[h.has(A, k)]),
+      FA([k], z3.Implies(h.has(A, k), h.dget(A, k) == di_final_val(g, val0, d, vpe, k)),
+         patterns=[h.dget(A, k)]))
+
+
+def _di_facts(c):
+  h0, sv, g, A, has0, val0, L, d, vpe = _di_terms(c)
+  nv = store_nvar(g, has0)
+  return [('nvar', (g, c.heap.hasarr(A)), z3.If(d >= vpe, nv - 1, nv))]
+
+
+contract(
+    'config.Buildable.__delitem__', F, 'Buildable.__delitem__',
+    requires=_di_req, ensures=_di_post, raises={'IndexError': _di_oob},
+    raises_post={'IndexError': _unchanged}, result='none', havoc_all=True, facts=_di_facts,
+    cases=lambda c: [_di_terms(c)[7] >= _di_terms(c)[8], H.tracking_on(c.old)],
+    pivots=lambda c: [IK(_di_terms(c)[7]), poskey(_di_terms(c)[2], _di_terms(c)[7]),
+                      IK(_di_terms(c)[6] - 1)],
+    loops={1: Loop(_di_inv, pivots=lambda c: [
+        IK(_di_terms(c)[8] + c.k), IK(_di_terms(c)[7]), poskey(_di_terms(c)[2], _di_terms(c)[7]),
+        IK(_di_terms(c)[8] + c.k + 1), _di_terms(c)[7], _di_terms(c)[8] + c.k])},
+    props=('C03', 'C16'),
+    note='del cfg[i] / del cfg[fdl.VARARGS]: a prefix position is unset (the positional view keeps '
+         'its length); a variadic position is removed and the later ones move down by one, each '
+         'keeping its value (compaction reads every value before it is overwritten); out of range '
+         '-> IndexError and nothing changes; the store stays canonical (slice keys: bounded layer)',
+)
